@@ -161,6 +161,7 @@ func (x *Exec) entryEnv() *Env {
 		return nil, false
 	}
 	env.lookupOld = env.lookupCur
+	env.lookupType = paramTypes(x.fn)
 	// deref in entry env reads entry memory
 	return env
 }
@@ -383,8 +384,16 @@ func (x *Exec) runBlock(b *ssa.BasicBlock) {
 		x.enterLoop(li)
 	}
 
+	var lastPos token.Pos
 	for _, ins := range b.Instrs {
 		x.curInstr = ins
+		switch ins.(type) {
+		case *ssa.Jump, *ssa.If, *ssa.Return:
+			x.maybeAssertAfter(lastPos)
+		}
+		if ins.Pos().IsValid() {
+			lastPos = ins.Pos()
+		}
 		if x.maybeLimit(ins) {
 			x.curInstr = nil
 			return // the rest of this path is outside the contract's scope
@@ -578,7 +587,33 @@ func (x *Exec) maybeAssert(ins ssa.Instruction) {
 	}
 	text := x.lineText(pos)
 	for k, a := range x.contract.Asserts {
-		if x.assertsDone[a] || !strings.Contains(text, a.Text) {
+		if a.Where == "after" || x.assertsDone[a] || !strings.Contains(text, a.Text) {
+			continue
+		}
+		if x.cutLine(&CutSpec{Text: a.Text, Ord: a.Ord}) != x.w.fset.Position(pos).Line {
+			continue
+		}
+		x.assertsDone[a] = true
+		t := x.evalBool(a.Clause, x.envAt(pos))
+		if !a.Assume {
+			x.oblige(fmt.Sprintf("assert/%d", k+1), "assert", x.curPC, t, a.Clause.Text, pos)
+		} else {
+			x.w.noteTrusted(x.name+" assume", a.Clause.Text)
+		}
+		x.vc.assume(mkImp(x.curPC, t))
+	}
+}
+
+// maybeAssertAfter implements "assert after <text>#n: e": e is proved at the end of the basic
+// block whose last statement is on the n-th source line containing the text (the end of a branch
+// body), before control leaves the block.
+func (x *Exec) maybeAssertAfter(pos token.Pos) {
+	if x.contract == nil || len(x.contract.Asserts) == 0 || !pos.IsValid() {
+		return
+	}
+	text := x.lineText(pos)
+	for k, a := range x.contract.Asserts {
+		if a.Where != "after" || x.assertsDone[a] || !strings.Contains(text, a.Text) {
 			continue
 		}
 		if x.cutLine(&CutSpec{Text: a.Text, Ord: a.Ord}) != x.w.fset.Position(pos).Line {
@@ -758,6 +793,9 @@ func (x *Exec) havocLike(v Val, hint string) Val {
 		x.vc.assume(mkAnd(mkCmp("<=", intT64(0), s.Off), mkCmp("<=", intT64(0), s.Len), mkCmp("<=", s.Len, s.Cap), mkCmp("<=", s.Cap, intT64(maxSliceLen)), mkCmp("<=", s.Off, intT64(maxSliceLen))))
 		if y.Back == nil {
 			s.Arr = x.vc.fresh(hint+"_arr", sortArr)
+		} else if strings.HasPrefix(hint, "cut_") {
+			// a cut forgets the contents of the backing store as well (the cell, hence aliasing, is kept)
+			x.cur.mem[y.Back] = Leaf{T: x.vc.fresh(hint+"_marr", sortArr)}
 		}
 		return &s
 	case Opaque:
@@ -1396,4 +1434,16 @@ func (x *Exec) mergeSource(i int, c *Cell) (T, bool) {
 		}
 	}
 	return T{}, false
+}
+
+// paramTypes gives the static types of a function's parameters (receiver included) by name.
+func paramTypes(fn *ssa.Function) func(string) types.Type {
+	return func(name string) types.Type {
+		for _, p := range fn.Params {
+			if p.Name() == name {
+				return p.Type()
+			}
+		}
+		return nil
+	}
 }
